@@ -245,8 +245,9 @@ static void c08_wait_cfg(int ti, int di, int ci, int tier)
 }
 
 /* ---- poll part ---- */
-enum { SK_NULL, SK_NODL, SK_D1, SK_D2, SK_D3, SK_EXPIRED, SK_D2R, NSK };
-static const char *const sk_names[] = { "null", "nodl", "d1", "d2", "d3", "expired", "d2,exited-and-waited-for" };
+enum { SK_NULL, SK_NODL, SK_D1, SK_D2, SK_D3, SK_EXPIRED, SK_D2R, SK_EXPR, NSK };
+static const char *const sk_names[] = { "null", "nodl", "d1", "d2", "d3", "expired", "d2,exited-and-waited-for", "expired,exited-and-waited-for" };
+#define SK_REAPED(k) ((k) == SK_D2R || (k) == SK_EXPR)
 static const int p_interests[] = { REPROC_EVENT_EXIT, REPROC_EVENT_OUT, REPROC_EVENT_OUT | REPROC_EVENT_EXIT };
 static const int p_timeouts[] = { 0, 1, 2, 3, -1 };
 enum { CE_IDLE, CE_OUTPUT, CE_EXIT, NCE };
@@ -271,8 +272,13 @@ static void check_poll(struct proc *procs, int n, const int *kinds, reproc_event
   if (r < 0) {
     /* EPIPE: nothing pollable (all sources null, or reaped with only the exit interest: its exit handle is gone) */
     int any = 0;
-    for (int i = 0; i < n; i++) any |= kinds[i] != SK_NULL && !(kinds[i] == SK_D2R && !(src[i].interests & REPROC_EVENT_OUT));
-    if (r == REPROC_EPIPE && !any) { vk_hit(CL8_EPIPE); return; }
+    for (int i = 0; i < n; i++) any |= kinds[i] != SK_NULL && !(SK_REAPED(kinds[i]) && !(src[i].interests & REPROC_EVENT_OUT));
+    if (r == REPROC_EPIPE && !any) {
+      /* nothing can be polled - but a deadline that has already expired is reported all the same, on every poll (C08; C09 alone would take either) */
+      if (nexpired) vk_violation("C08", "expired-deadline-reported", key8, "a deadline had already expired, yet poll answered with the closed-pipe error instead of the deadline event");
+      else vk_hit(CL8_EPIPE);
+      return;
+    }
     struct vk_event *pe = vk_last_event(hx_last_api, C_POLL);
     if (pe && pe->injected > 0 && r == -pe->injected) {
       if (bound != NOD && t1 > bound + dev)
@@ -334,7 +340,7 @@ static void check_poll(struct proc *procs, int n, const int *kinds, reproc_event
 
 static int have_expired_kind(const int *kinds, int n)
 {
-  for (int i = 0; i < n; i++) if (kinds[i] == SK_EXPIRED) return 1;
+  for (int i = 0; i < n; i++) if (kinds[i] == SK_EXPIRED || kinds[i] == SK_EXPR) return 1;
   return 0;
 }
 
@@ -367,7 +373,7 @@ static void c08_poll_cfg(int n, const int *kinds, int ii, int ti, int ce)
     S->free_run_ok = !(nreal >= 2 && ce != CE_IDLE && timeout < 0);
     /* exact ties between the timeout and a deadline exist on the virtual clock only */
     for (int i = 0; i < n; i++) {
-      if (kinds[i] == SK_D2R) S->free_run_ok = 0;
+      if (SK_REAPED(kinds[i])) S->free_run_ok = 0;
       if (kinds[i] < SK_D1 || kinds[i] > SK_D3 || timeout <= 0) continue;
       int left = kinds[i] - SK_D1 + 1 - (have_expired_kind(kinds, n) ? 1 : 0); /* nominal ms until this deadline when the first poll starts */
       if (left == timeout || left == 2 * timeout) S->free_run_ok = 0;          /* a tie in the first or in the second poll */
@@ -382,9 +388,9 @@ static void c08_poll_cfg(int n, const int *kinds, int ii, int ti, int ce)
     if (kinds[i] == SK_NULL) continue;
     reproc_options o;
     memset(&o, 0, sizeof o);
-    o.deadline = dl_ms(kinds[i] == SK_NODL ? 0 : kinds[i] == SK_EXPIRED ? 1 : kinds[i] == SK_D2R ? 2 : kinds[i] - SK_D1 + 1);
-    if (kinds[i] == SK_EXPIRED) have_expired = 1;
-    if (kinds[i] == SK_D2R) {
+    o.deadline = dl_ms(kinds[i] == SK_NODL ? 0 : (kinds[i] == SK_EXPIRED || kinds[i] == SK_EXPR) ? 1 : kinds[i] == SK_D2R ? 2 : kinds[i] - SK_D1 + 1);
+    if (kinds[i] == SK_EXPIRED || kinds[i] == SK_EXPR) have_expired = 1;
+    if (SK_REAPED(kinds[i])) {
       /* its child has exited and its status has been collected, but it stays in the array: its deadline still counts */
       proc_start(&procs[i], "X0 ;", o);
       int so = vk_cfg.sched_on, to = vk_cfg.time_on;
@@ -458,8 +464,8 @@ static void c08_run(int tier, long cfg)
 
 /* ================================================================= C09 */
 
-enum { OS_IDLE, OS_DATA, OS_CHILD_CLOSED, OS_PARENT_CLOSED, OS_EOF_REPORTED, OS_NOT_PIPE, NOS };
-static const char *const os_names[] = { "idle", "data", "closed-by-child", "closed-by-parent", "eof-reported", "not-a-pipe" };
+enum { OS_IDLE, OS_DATA, OS_CHILD_CLOSED, OS_PARENT_CLOSED, OS_EOF_REPORTED, OS_NOT_PIPE, OS_READ_INTERRUPTED, NOS };
+static const char *const os_names[] = { "idle", "data", "closed-by-child", "closed-by-parent", "eof-reported", "not-a-pipe", "idle,after-an-interrupted-read" };
 enum { INS_IDLE, INS_CHILD_CLOSED, INS_PARENT_CLOSED, INS_FULL, INS_FULL_CHILD_CLOSED, INS_INPUT, NINS };
 static const char *const ins_names[] = { "idle", "closed-by-child", "closed-by-parent", "full", "full,then-closed-by-child", "closed-after-start-up-input" };
 enum { CS_RUNNING, CS_ZOMBIE, CS_REAPED, NCS };
@@ -541,6 +547,14 @@ static void c09_prepare(struct proc *q, const struct c09_setup *su)
   if (su->os == OS_EOF_REPORTED) {
     int r = hx_read(q->p, REPROC_STREAM_OUT, b, sizeof b);
     if (r != REPROC_EPIPE) vk_finish(OUT_INFRA, "setup read returned %d", r);
+  }
+  if (su->os == OS_READ_INTERRUPTED) {
+    /* a read that a signal of the caller interrupted says nothing about the stream: it is still there to be polled */
+    vk_force_fault(C_READ, EINTR);
+    int r = hx_read(q->p, REPROC_STREAM_OUT, b, sizeof b);
+    vk_force_fault(0, 0);
+    if (r != -EINTR && r != REPROC_EWOULDBLOCK) vk_finish(OUT_INFRA, "setup read with an interruption returned %d", r);
+    if (!still_held(q, 1)) vk_violation("C09", "stream-kept-after-interrupted-read", "h_c09|setup", "after a read that failed with %s the parent no longer holds the stdout pipe: it can never be reported again", hx_errname(r));
   }
   if (su->ins == INS_PARENT_CLOSED) hx_close(q->p, REPROC_STREAM_IN);
   if (su->cs == CS_REAPED) {
